@@ -303,6 +303,9 @@ def obligations(tier):
     obs.append(Ob("text/filter/multidigit", "text", dict(what="filter",
                   inp=[[0, 0, 0, 2, 0], [0, 1, 0, 9, 1], [0, 2, 0, 10, 2], [0, 3, 0, 11, 3], [1, 0, 2, 10, 0], [1, 1, 2, 100, 1], [2, 0, 10, 3, 0], [2, 1, 10, 20, 1]],
                   fil=[[0, 1, 0, 0, 9, 5, 0], [0, 2, 0, 0, 10, 12, 0], [0, 2, 1, 0, 10, 13, 1], [1, 1, 0, 2, 100, 7, 0], [2, 0, 0, 10, 3, 1, 0], [2, 1, 0, 10, 20, 1, 0]]), [], [], concrete=True))
+    obs.append(Ob("text/filter/digits-skip", "text", dict(what="filter",
+                  inp=[[0, 0, 0, 2, 0], [0, 1, 0, 9, 1], [0, 2, 0, 10, 2], [0, 3, 0, 11, 3], [1, 0, 3, 5, 0], [2, 0, 10, 1, 0], [3, 0, 100, 7, 0]],
+                  fil=[[0, 0, 0, 0, 2, 5, 0], [0, 2, 0, 0, 10, 12, 0], [2, 0, 0, 10, 1, 4, 0], [3, 0, 0, 100, 7, 1, 0]]), [], [], concrete=True))
     obs.append(Ob("text/combine/multidigit", "text", dict(what="combine", reads=[[2, 0, 0], [9, 1, 1], [10, 2, 2], [100, 3, 3]], writes=[[3, 1, 1], [10, 5, 4], [11, 0, 0], [99, 2, 2]]), [], [], concrete=True))
     obs.append(Ob("text/filter/empty", "text", dict(what="filter", inp=[[0, 0, 0, 1, 0]], fil=[]), [], [], concrete=True))
     obs.append(Ob("text/combine/1", "text", dict(what="combine", reads=[[0, 0, 0], [1, 1, 1], [3, 2, 2]], writes=[[1, 1, 1], [2, 5, 4], [3, 2, 2]]), [], [], concrete=True))
